@@ -1,6 +1,8 @@
 //! vcheck - runtime-monitoring checks for marmot-protocol/mdk (one sub-command per property).
 #![allow(clippy::too_many_arguments, clippy::type_complexity)]
 
+#[cfg(feature = "full")]
+mod capture;
 mod par;
 mod report;
 mod rng;
